@@ -690,6 +690,62 @@ class ShapeMapTrackerStep(Ob):
         return None if _norm(result["instances"]) == _norm(want) else "instances after the item: %r, expected %r" % (result["instances"], want)
 
 
+class CardinalityMapping(Ob):
+    """The pure cardinality mappings on a symbolic integer cardinality (unbounded): ShExC '{k}' (nothing for 1 on a constraint line) and
+    SHACL minCount = maxCount = k."""
+    functions = ["ShaclSerializer._min_occurs_from_cardinality/_max_occurs_from_cardinality", "BaseStatementSerializer.cardinality_representation"]
+
+    def __init__(self, out_of_comment):
+        self.ooc = out_of_comment
+        self.name = "cardinality_mapping/%s" % ("line" if out_of_comment else "comment")
+
+    def build(self, ex):
+        return dict(card=SymInt(ex.fresh_int("card", 1, None), 1, None))
+
+    def call(self, a):
+        from shexer.io.shacl.formater.shacl_serializer import ShaclSerializer
+        from shexer.io.shex.formater.statement_serializers.base_statement_serializer import BaseStatementSerializer
+        from shexer.model.statement import Statement
+        from symx import cur
+        ser = ShaclSerializer(target_file=None, shapes_list=[], namespaces_dict={})
+        card = a["card"]
+        st = Statement(st_property=P, st_type="IRI", cardinality=card, n_occurences=1, probability=1.0)
+        rep = BaseStatementSerializer.cardinality_representation(st, out_of_comment=self.ooc)
+        import re
+        m = re.fullmatch("\\{⟦(\\d+)⟧\\}", rep)
+        if m:
+            rep = ["{", cur().tokens[int(m.group(1))][0], "}"]
+        else:
+            m = re.fullmatch("\\{(\\d+)\\}", rep)
+            rep = ["{", int(m.group(1)), "}"] if m else [rep]
+        return dict(mn=ser._min_occurs_from_cardinality(card), mx=ser._max_occurs_from_cardinality(card), rep=rep)
+
+    def bad(self, a, result):
+        card = a["card"]
+        conds = [isinstance(result["mn"], (SymInt, int)) and isinstance(result["mx"], (SymInt, int))]
+        if conds[0]:
+            conds.append(int_eq(result["mn"], card))
+            conds.append(int_eq(result["mx"], card))
+        rep = result["rep"]
+        if rep == [""]:
+            conds.append(self.ooc)
+            conds.append(int_eq(card, 1))
+        elif len(rep) == 3:
+            conds.append(int_eq(rep[1], card))
+            if self.ooc:
+                conds.append(z3.Not(as_z3(int_eq(card, 1))))
+        else:
+            return True
+        return neg(_and(conds))
+
+    def check(self, a, result):
+        k = a["card"]
+        want = [""] if (self.ooc and k == 1) else ["{", k, "}"]
+        if (result["mn"], result["mx"]) != (k, k):
+            return "SHACL counts for cardinality %d are %r..%r" % (k, result["mn"], result["mx"])
+        return None if list(result["rep"]) == want else "ShExC cardinality of %d is %r, expected %r" % (k, result["rep"], want)
+
+
 class FilterYielder(Ob):
     """FilterNamespacesTriplesYielder over a stub yielder: passes exactly the triples whose predicate is not a direct child of an ignored
     namespace, in order."""
@@ -755,6 +811,9 @@ def obligations(prop, tier):
             for classes in (("http://ex.org/C",), ("http://ex.org/C", "http://ex.org/E")):
                 for pre in ("empty", "some", "full"):
                     out.append(ClassAggregation(direct, inv, inverse, classes, pre))
+    if prop == "C11":
+        out.append(CardinalityMapping(True))
+        out.append(CardinalityMapping(False))
     if prop == "C10":
         for n in (1, 2):
             for rep in (False, True):
